@@ -1,7 +1,7 @@
 (* Bit-level lemmas for the bit-field development: masks of contiguous ranges, disjointness as
    [Z.land = 0], reading a field back from a key, the first-fit scan. *)
 From Coq Require Import ZArith List Bool Lia.
-Require Import Rig.Model.Base Rig.Model.BitField Rig.Spec.BitField.
+Require Import Rig.Generated.GenBitField Rig.Model.Base Rig.Model.BitField Rig.Spec.BitField.
 Import ListNotations.
 Open Scope Z_scope.
 
@@ -137,3 +137,15 @@ Proof. unfold bitlen. pose proof (Z.log2_nonneg v). lia. Qed.
 
 Lemma bitlen_fits v : 0 < v -> v < 2 ^ bitlen v.
 Proof. intros Hv. unfold bitlen. replace (Z.log2 v + 1) with (Z.succ (Z.log2 v)) by lia. apply Z.log2_spec. exact Hv. Qed.
+
+(* the source computes the automatic length with int.bit_length (not with the floating-point logarithm
+   it used before fix b55359e): this is what [bitlen] models; [bitlen_spec] is the defining property of
+   int.bit_length, 2^(k-1) <= v < 2^k *)
+Lemma auto_length_is_bit_length : gen_auto_length_exact = true.
+Proof. reflexivity. Qed.
+
+Lemma bitlen_spec v : 0 < v -> 2 ^ (bitlen v - 1) <= v < 2 ^ bitlen v.
+Proof.
+  intros Hv. unfold bitlen. replace (Z.log2 v + 1 - 1) with (Z.log2 v) by lia.
+  replace (Z.log2 v + 1) with (Z.succ (Z.log2 v)) by lia. now apply Z.log2_spec.
+Qed.
